@@ -58,7 +58,8 @@ Inductive ev :=
 | EvRec (file : bytes) (r : record)          (* nextLine delivered a record of [file] *)
 | EvSkip (file : bytes) (rs : list record)   (* nextfile abandoned these records of [file] *)
 | EvSetFile (name : bytes)                   (* setFile *)
-| EvAssign (name val : bytes)                (* a var=value operand was applied *)
+| EvAssign (name val : bytes)                (* a var=value operand was reached and processed *)
+| EvNoFile (name : bytes)                    (* a file operand could not be opened *)
 | EvSetNR (z : Z)                            (* the program assigned NR *)
 | EvSetFNR (z : Z)
 | EvSetVar (name val : bytes)                (* the program assigned a variable *)
@@ -272,16 +273,16 @@ Definition all_upper (name : bytes) : bool := forallb is_upper name.
 Definition set_var_by_name (e : env) (name val : bytes) (s : st) : option st :=
   if bytes_eqb name b_NR then
     match parse_canon_nat val with
-    | Some z => Some (add_log (EvAssign name val) (set_NR z s))
+    | Some z => Some (set_NR z s)
     | None => None
     end
   else if bytes_eqb name b_FNR then
     match parse_canon_nat val with
-    | Some z => Some (add_log (EvAssign name val) (set_FNR z s))
+    | Some z => Some (set_FNR z s)
     | None => None
     end
   else if all_upper name then None
-  else if bmem name (globals e) then Some (add_log (EvAssign name val) (set_vars (bupdate (vars s) name val) s))
+  else if bmem name (globals e) then Some (set_vars (bupdate (vars s) name val) s)
   else Some s.   (* "Ignore variables that aren't defined in program" *)
 
 (* ---------- io.go nextLine ---------- *)
@@ -318,7 +319,7 @@ Fixpoint walk (e : env) (n : nat) (s : st) : nlres * st :=
           | None => (NLUnmod, s1)
           | Some val =>
             match set_var_by_name e v val s1 with
-            | Some s2 => walk e n' s2
+            | Some s2 => walk e n' (add_log (EvAssign v val) s2)
             | None => (NLUnmod, s1)
             end
           end
@@ -334,7 +335,7 @@ Fixpoint walk (e : env) (n : nat) (s : st) : nlres * st :=
               end
             else
               match blookup (fs e) name with
-              | None => (NLErr, s1)
+              | None => (NLErr, add_log (EvNoFile name) s1)
               | Some (r :: rest) => deliver name r rest (set_file name s1)
               | Some [] => walk e n' (set_file name s1)
               end
@@ -532,6 +533,38 @@ Section Machine.
     | None => s
     end.
 
+  (* the pattern part of one iteration of "for i, action := range actions":
+     an error value to return, or (matched, new inRange[i], u, s) *)
+  Definition eval_pat (fuel : nat) (r : rule) (i : nat) (f : bool) (u : U) (s : st) : lres U + (bool * bool * U * st) :=
+    match rk r with
+    | PNone => inr (true, f, u, s)
+    | PExpr =>
+        match run fuel (enter (BPat i false) u) s with
+        | RFuel => inl LFuel | RUnmod => inl LUnmod
+        | ROk (OVal b) u1 s1 => inr (b, f, u1, s1)
+        | ROk o u1 s1 => inl (LStop o u1 s1)
+        end
+    | PRange =>
+        let start : lres U + (bool * U * st) :=
+          if f then inr (true, u, s)
+          else match run fuel (enter (BPat i false) u) s with
+               | RFuel => inl LFuel | RUnmod => inl LUnmod
+               | ROk (OVal b) u1 s1 => inr (b, u1, s1)
+               | ROk o u1 s1 => inl (LStop o u1 s1)
+               end in
+        match start with
+        | inl x => inl x
+        | inr (f1, u1, s1) =>
+          if f1 then
+            match run fuel (enter (BPat i true) u1) s1 with
+            | RFuel => inl LFuel | RUnmod => inl LUnmod
+            | ROk (OVal b) u2 s2 => inr (true, negb b, u2, s2)
+            | ROk o u2 s2 => inl (LStop o u2 s2)
+            end
+          else inr (false, false, u1, s1)
+        end
+    end.
+
   (* the "for i, action := range actions" loop for one record.
      [done] = flags of the rules already passed (reversed), [fl] = flags from rule [i] on. *)
   Fixpoint exec_rules (fuel : nat) (rules : list rule) (i : nat) (done fl : list bool) (u : U) (s : st) : lres U :=
@@ -539,37 +572,7 @@ Section Machine.
     | [], _ => LCont u s (rev done ++ fl)
     | _ :: _, [] => LCont u s (rev done)          (* unreachable: one flag per rule *)
     | r :: rules', f :: fl' =>
-      (* pattern *)
-      let pm : lres U + (bool * bool * U * st) :=     (* stop, or (matched, new flag, u, s) *)
-        match rk r with
-        | PNone => inr (true, f, u, s)
-        | PExpr =>
-            match run fuel (enter (BPat i false) u) s with
-            | RFuel => inl LFuel | RUnmod => inl LUnmod
-            | ROk (OVal b) u1 s1 => inr (b, f, u1, s1)
-            | ROk o u1 s1 => inl (LStop o u1 s1)
-            end
-        | PRange =>
-            let start : lres U + (bool * U * st) :=
-              if f then inr (true, u, s)
-              else match run fuel (enter (BPat i false) u) s with
-                   | RFuel => inl LFuel | RUnmod => inl LUnmod
-                   | ROk (OVal b) u1 s1 => inr (b, u1, s1)
-                   | ROk o u1 s1 => inl (LStop o u1 s1)
-                   end in
-            match start with
-            | inl x => inl x
-            | inr (f1, u1, s1) =>
-              if f1 then
-                match run fuel (enter (BPat i true) u1) s1 with
-                | RFuel => inl LFuel | RUnmod => inl LUnmod
-                | ROk (OVal b) u2 s2 => inr (true, negb b, u2, s2)
-                | ROk o u2 s2 => inl (LStop o u2 s2)
-                end
-              else inr (false, false, u1, s1)
-            end
-        end in
-      match pm with
+      match eval_pat fuel r i f u s with
       | inl x => x
       | inr (matched, f', u1, s1) =>
         if negb matched then exec_rules fuel rules' (S i) (f' :: done) fl' u1 s1
